@@ -15,6 +15,94 @@ CHECKS = {
                 "purity table, absence of monkey-patching (checked by R16.dyn).",
         "technique": "static analysis: interprocedural effect/purity analysis over a CHA call graph",
     },
+    "C03": {
+        "text": "Three necessary structural conditions of cache transparency are decided for every path / geometry "
+                "at once: the word-boundary guard of the access width precedes every store into cache or lower "
+                "memory and every value return on all enumerated paths of the 8 multi-byte access methods "
+                "(rejects instead of answering wrongly); the tag/index/offset split partitions the 32 address "
+                "bits (bit-slice abstract domain, symbolic in the address, exact per geometry on a 7x5 grid); "
+                "cached and uncached back ends are configured identically and fill/write-back walk the same "
+                "block addresses. Read-your-writes over arbitrary histories is value-level and not decided.",
+        "ref": "DESIGN.md section 2, C03",
+        "note": "Trusted: ast, path enumeration without test correlation (conservative), bit-slice domain. "
+                "Direct (parser preload) writes are outside the boundary rule.",
+        "technique": "static analysis: must-pass-through path rule + bit-slice abstract interpretation + sibling agreement",
+    },
+    "C07": {
+        "text": "Decides the clauses of the schedule visible in the code's shape: exactly one cycle tick per "
+                "pipeline step before anything can raise; who-may-write for the cycle counter (tick, miss-penalty "
+                "statements on counted miss paths only, TOY half-steps); and agreement of the constants the "
+                "documented schedule is built from (WB runs before ID, interlock window = stall duration = stages "
+                "between ID and WB, control transfers resolved in MEM with non-inclusive flush, flush cancels "
+                "stall, ecall drain window = MEM+WB). Per-instruction retire cycles are dynamic and not decided.",
+        "ref": "DESIGN.md section 2, C07",
+        "note": "Trusted: ast, constant folding, path enumeration. The stall countdown arithmetic inside "
+                "Pipeline.step is value-level.",
+        "technique": "static analysis: who-may-write + dominance + constant-agreement rules",
+    },
+    "C09": {
+        "text": "Decides the accounting discipline structurally and exhaustively over paths: on each of the 53 "
+                "enumerated paths of the ten counted access methods the accounting group (accesses, hits by "
+                "flag, last_was_hit, penalty on the miss branch) occurs exactly once when counted and never when "
+                "uncounted; the hit flag is the cache lookup's verdict; the counters have no other writer; each "
+                "load/store class performs exactly one counted access in behavior() and forwards the flag in "
+                "memory_access(); display, ECALL and parser accesses are uncounted; no other site reaches data "
+                "memory. Equality with a reference cache's hit sequence is history-dependent and not decided.",
+        "ref": "DESIGN.md section 2, C09",
+        "note": "Trusted: ast, path enumeration (uncorrelated tests only add paths).",
+        "technique": "static analysis: per-path exactly-once rule + who-may-write + call-site enumeration",
+    },
+    "C10": {
+        "text": "Only the coupling and self-consistency clauses: the set notifies the policy on every hit and "
+                "fill with the right index in the right order and queries the victim from one place; LRU's "
+                "access/victim/ages/initial order agree on the list ends; PLRU's leaf offsets are inverse, "
+                "parent/children are heap-consistent and the stored bit sends the victim walk to the other child "
+                "(parity abstract domain). Correct eviction over arbitrary histories is a statement about all "
+                "reachable policy states and is not decided.",
+        "ref": "DESIGN.md section 2, C10",
+        "note": "Trusted: ast, linear forms, parity domain. Unrecognised policy shapes are reported as not decided.",
+        "technique": "static analysis: call-order path rule + sibling-consistency in linear/parity domains",
+    },
+    "C11": {
+        "text": "Decides: exactly one guarded read_instruction per executed instruction on every path of the IF "
+                "and single stage and no other fetch site (fetch counter = fetches); the full accounting group on "
+                "every path of the cached fetch; guarded whole-block fill and selection by block offset; "
+                "load_program resets both memories before parsing and reset() restores counters, cache and lower "
+                "memory with no other mutable field. Hit counts against a reference cache are not decided.",
+        "ref": "DESIGN.md section 2, C11",
+        "note": "Trusted: ast, path enumeration. CLI display fetch is a tabled exemption.",
+        "technique": "static analysis: call-site enumeration + path rules + reset-completeness",
+    },
+    "C12": {
+        "text": "Decides the mechanisms per path: write-through writes lower memory exactly once with the caller's "
+                "address/value on every accepted path and touches the cache only on a hit; every write-back "
+                "write_block site consumes the displaced block on the not-None path; CacheSet.write captures a "
+                "dirty victim before overwriting and marks every written block dirty. The invariants over "
+                "reachable cache states are not decided.",
+        "ref": "DESIGN.md section 2, C12",
+        "note": "Trusted: ast, path enumeration.",
+        "technique": "static analysis: must-pass-through / result-must-be-consumed path rules",
+    },
+    "C13": {
+        "text": "Decides: guard dominance (first effectful event on every path of step/half-steps/run is preceded "
+                "by a not-done test, composed through guard summaries, effects from the interprocedural "
+                "summaries), purity of is_done() (so done stays done), run() is the step loop, step() returns "
+                "`not is_done()`, load_program resets both memories before parsing on every path, and reset "
+                "completeness of the four reset() methods. State equality of run vs step is not claimed by value.",
+        "ref": "DESIGN.md section 2, C13",
+        "note": "Trusted: ast, sa.effects, sa.paths. Wall-clock fields are a tabled exemption.",
+        "technique": "static analysis: effect analysis + guard dominance with summaries + reset-completeness",
+    },
+    "C20": {
+        "text": "Decides the sequencing clauses: in both half-steps the is_done() return and the next_cycle test "
+                "dominate the first effect on every path; wrong-order paths end in raise StepSequenceError before "
+                "any effect; step() and single_step() act only through the self-guarded halves in the right "
+                "order / on the right flag value; next_cycle has exactly three writers (1, ->2, ->1). Snapshot "
+                "equality at instruction boundaries by value is not decided.",
+        "ref": "DESIGN.md section 2, C20",
+        "note": "Trusted: ast, sa.effects, sa.paths.",
+        "technique": "static analysis: typestate/guard dominance over structured paths + who-may-write",
+    },
 }
 
 NOT_APPLICABLE = {f"C{i:02d}": UC for i in range(1, 21)}
